@@ -29,7 +29,7 @@ T = {
  "C08b": ("C08", "polygon set where an earlier element has vertical limits and a later one has them undefined", "C08 quick", "roundtrip:Polygons:rewrite-differs"),
  "C11a": ("C11", "sparse x sparse product with both transposition flags and two different non-commuting operands", "C11 quick", "prodMatMat:sparse-kernel:sparse-eigen:TT:nonsquare"),
  "C11b": ("C11", "inverse of the dense Cholesky factor for order >= 3", "C11 quick", "chol-dense:triangles"),
- "C13a": ("C13", "turning bands of a POWER model after an earlier POWER simulation with the same exponent and another scale (stale function-static constants)", "C13 quick (after adding part history with a pristine fork+exec reference; missed before)", "history:simtub:POWER"),
+ "C13a": ("C13", "turning bands of a POWER model after an earlier POWER simulation with the same exponent and another scale (stale function-static constants; patch.diff rebased after the repair of that cache in /repo: it removes the repaired condition, same mechanism; the original is patch_as_seeded.diff)", "C13 quick (after adding part history with a pristine fork+exec reference; missed before)", "history:simtub:POWER"),
  "C13b": ("C13", "conditional plurigaussian with a rule using the second GRF and data exactly on target nodes", "C13 quick", "pgs:facies-at-data"),
  "C15a": ("C15", "matrix-free operator with an even number of Markov coefficients (param + ndim/2 odd)", "C15 quick", "opq:matrixfree-vs-assembled:turbo1d:matern"),
  "C15b": ("C15", "turbo mesh both rotated and with unequal cell sizes", "C15 quick", "proj:affine-not-reproduced:turbo3d"),
@@ -52,7 +52,7 @@ T = {
  "C07c": ("C07", "selection defined, active status queried once, then a role-less column stored before the selection column deleted (stale cached column index)", "C07 quick (after adding the observeAll step and the 'observed since last mutation' state bit; missed before)", "deleteColumnByColIdx:active-isActive"),
  "C08c": ("C08", "Model with a mixed drift monomial of degree >= 3 (exponent > 1 followed by a factor without exponent)", "C08 quick (after adding part rt_ModelDrift with all monomials of degree <= 3; missed before)", "roundtrip:Model:drift"),
  "C10c": ("C10", "isotropic structure then setRange(0,r)/setScale(0,s) only: stale isotropy flag (incremental update differs from fresh build)", "C10 quick (after adding the incr_* parts: incrementally updated objects vs fresh ones; missed before)", "incr:CovAniso(spherical):isIsotropic"),
- "C11c": ("C11", "eigen-decomposition cached on one matrix object and not invalidated by addScalar/addScalarDiag/prodScalar/addMatInPlace", "C11 quick (after adding part history_matrix on one live object; missed before)", "history:dense:computeEigen:after:addScalar"),
+ "C11c": ("C11", "eigen-decomposition cached on one matrix object and not invalidated by addScalar/addScalarDiag/prodScalar/addMatInPlace (patch.diff rebased over a later fix commit touching the same function; the original is patch_as_seeded.diff)", "C11 quick (after adding part history_matrix on one live object; missed before)", "history:dense:computeEigen:after:addScalar"),
  "C12c": ("C12", "asymmetric estimator cross term with tolang >= 90 and codir not +x (pair orientation by sample order)", "C12 quick (after fixing one orientation convention per run + mirror-direction relation; missed before)", "vario:gg:covariance:regular:cross"),
  "C15c": ("C15", "SPDE kriging with a V column, a selection masking a non-trailing sample and non-constant V", "C15 quick (after crossing the layout axes and rebuilding data/variances/RHS independently; missed before)", "solve:data-variances-not-those-of-the-active-samples:cholesky"),
  "C16c": ("C16", "getCoordinate of a node, in-place geometry setter, getCoordinate of the same node (stale memo)", "C16 quick (after adding the history_grid/dbgrid parts; missed before)", "history:getCoordinate:after-in-place-edit"),
@@ -72,16 +72,16 @@ T = {
  "C05d": ("C05", "facies variable + selection where the largest label occurs only at masked samples (getFaciesNumber, dbStatisticsFacies, computeIndic)", "C05 quick (after adding part other_sample_readers_masked_vs_removed; missed before: facies statistics not in the operation list)", ""),
  "C06d": ("C06", "K-fold cross-validation with a target Db different from the input Db and different codes", "C06 quick (after adding part xvalid_separate; missed before: dbout = dbin only)", ""),
  "C07d": ("C07", "setLocators with a name list designating one column twice, the literal name coming second", "C07 quick (after adding 31 degenerate-vector calls and reader clauses on degenerate lists; missed before: vector arguments never repeated an element)", ""),
- "C08d": ("C08", "negative Db value needing 15 digits with a three-digit exponent (22-character text)", "", ""),
- "C09d": ("C09", "word >= ~1000 characters taken from the malformed file and echoed by messerr (stack buffer overrun while reporting the failure), verbose loaders", "", ""),
+ "C08d": ("C08", "negative Db value needing 15 digits with a three-digit exponent (22-character text)", "C08 quick (after adding 35 formatting-extreme values - three-digit exponents, denormals, 15-17 significant digits - to every value slot; missed before: value menu lacked the longest texts)", ""),
+ "C09d": ("C09", "word >= ~1000 characters taken from the malformed file and echoed by messerr (stack buffer overrun while reporting the failure), verbose loaders", "C09 quick (after adding the fault kind =long: words of 900..5000 characters at every token position, loaders run verbose; missed before)", ""),
  "C10d": ("C10", "mvndst with every variable unbounded or an invalid count leaves the generator on its internal seed", "C10 quick (after adding the generator rule + part rng_neutral; missed before: generator state after non-random calls not judged)", ""),
- "C11d": ("C11", "", "", ""),
- "C12d": ("C12", "db_vmap FFT route with padded length (nx+nxx-1) multiple of 8", "", ""),
- "C13d": ("C13", "Gibbs schedule with exactly one sweep after burn-in (niter = nburn+1) and interval bounds / conditional simpgs (patch rebased on fix 06c40bc19, same final code)", "", ""),
- "C14d": ("C14", "simfft on a rotated grid with non-square mesh and an anisotropic model (transposed mesh matrix)", "", ""),
- "C15d": ("C15", "MeshEStandard 2-D with coordinates large relative to the mesh size (UTM-like origin, mesh 2-25 m): closed-form determinant cancels", "", ""),
- "C16d": ("C16", "grid mesh <= 1e-3 in coordinate units (tolerance added before the division by the mesh)", "", ""),
- "C17d": ("C17", "lock_samerot with a range-less first structure (LINEAR, POWER...) followed by ranged structures, rotation inferred", "", ""),
+ "C11d": ("C11", "solve(b, x) called with the same VectorDouble object as right-hand side and solution on a dense storage", "C11 quick (after adding part aliasing: every operation with an input and an output argument called with the same object on both sides; missed before)", ""),
+ "C12d": ("C12", "db_vmap FFT route with padded length (nx+nxx-1) multiple of 8", "C12 quick (after adding part vmap_grid: FFT route vs direct route vs brute-force pair sums over every grid size / half-size residue mod 8; missed before: db_vmap not exercised)", ""),
+ "C13d": ("C13", "Gibbs schedule with exactly one sweep after burn-in (niter = nburn+1) and interval bounds / conditional simpgs (patch rebased on fix 06c40bc19, same final code)", "C13 quick (after adding the (nburn, niter) schedule axis incl. niter = nburn + 1; missed before: one schedule 5/15)", ""),
+ "C14d": ("C14", "simfft on a rotated grid with non-square mesh and an anisotropic model (transposed mesh matrix)", "C14 quick (after adding part fft_kernel: covariance discretised by simfft, transformed back with the library's fftn, against Model::eval on rotated / non-square grids; missed before)", ""),
+ "C15d": ("C15", "MeshEStandard 2-D with coordinates large relative to the mesh size (UTM-like origin, mesh 2-25 m): closed-form determinant cancels", "C15 quick (after running every mesh in 7 frames x' = s x + t incl. non-dyadic UTM-like shifts, reference solved in cell-local coordinates; missed before: coordinates of order 1)", ""),
+ "C16d": ("C16", "grid mesh <= 1e-3 in coordinate units (tolerance added before the division by the mesh)", "C16 quick (after adding parts meshscale_1d/2d/3d: mesh sizes 2^-20..2^20; missed before: meshes of order 1)", ""),
+ "C17d": ("C17", "lock_samerot with a range-less first structure (LINEAR, POWER...) followed by ranged structures, rotation inferred", "C17 quick (after adding part samerot_lists: structure lists starting with a range-less structure x lock_samerot; missed before)", ""),
  "C18d": ("C18", "Hermite anamorphosis with pymax < aymax (left-skewed / bimodal data): upper linear junction of Gaussian -> raw", "C18 quick", "hermite-anam:y-z-y"),
  "C19d": ("C19", "roll-back of permanent variables by column index instead of UID: failure on a Db that already has a hole in its UID table", "C19 quick", "rollback:xvalid:addvar#2"),
  "C20d": ("C20", "query ordinate one ulp away from a vertex ordinate (computed lattice k*0.1 against typed tenths), point far from the boundary", "C20 quick (after adding parts decimal_tri/decimal_quad with an exact 128-bit reference; missed before: dyadic coordinates only)", "pip:decimal-lattice"),
